@@ -337,6 +337,46 @@ PROPS["C13"] = {
         "technique": "Lean 4 proof (exact integer envelope theorems, sequence induction) + regenerated-kernel tie + differential correspondence via hook + timing scenarios"},
 }
 
+PROPS["C18"] = {
+    "props": "Failsafe.Props.C18", "ties": ["Failsafe.Tie.Adapters"],
+    "kernels": ["http_retry_handle", "http_delay_func", "grpc_retry_handle"],
+    "facts": ["grpcRetryableCodes", "httpRetryBuilderChain", "grpcRetryBuilderChain", "httpRegexes",
+              "bodies/http:.doRequest", "bodies/http:.bodyReader", "bodies/http:cancelOnCloseBody.Close", "bodies/http:roundTripper.RoundTrip", "bodies/http:Request.Do",
+              "bodies/util:.MergeContexts", "bodies/client:.NewUnaryClientInterceptorWithExecutor", "bodies/server:.NewUnaryServerInterceptorWithExecutor"],
+    "required_theorems": [
+        "Failsafe.Props.C18.retryable_status_iff", "Failsafe.Props.C18.retryable_status_5xx", "Failsafe.Props.C18.retryable_error_iff",
+        "Failsafe.Props.C18.generated_retryable_status_iff", "Failsafe.Props.C18.delayFn_spec", "Failsafe.Props.C18.retry_after_respected",
+        "Failsafe.Props.C18.retryLoop_spec", "Failsafe.Props.C18.attempts_le", "Failsafe.Props.C18.next_attempt_iff", "Failsafe.Props.C18.returned_is_last_attempt",
+        "Failsafe.Props.C18.body_replayed_in_full", "Failsafe.Props.C18.buffered_attempts_independent", "Failsafe.Props.C18.seekable_shared_witness",
+        "Failsafe.Props.C18.attempt_ctx_carries_caller_values", "Failsafe.Props.C18.attempt_ctx_carries_caller_deadline",
+        "Failsafe.Props.C18.attempt_ctx_done_when_caller_done", "Failsafe.Props.C18.attempt_ctx_done_when_exec_done", "Failsafe.Props.C18.attempt_ctx_done_only_if",
+        "Failsafe.Props.C18.grpc_retryable_iff", "Failsafe.Props.C18.generated_grpc_retryable_iff", "Failsafe.Props.C18.grpc_next_attempt_iff", "Failsafe.Props.C18.grpc_returned_is_last",
+        "Failsafe.Tie.Adapters.tie_retryHandle", "Failsafe.Tie.Adapters.tie_delayFn", "Failsafe.Tie.Adapters.tie_grpcHandle", "Failsafe.Tie.Adapters.grpc_table",
+    ],
+    "diff": [{"slice": "adapters", "n_quick": 160, "n_thorough": 1600, "seeds_thorough": 3, "n_search": 800, "par": 8}],
+    "rule": "adapters slice: (i) exhaustive tables without network: the HTTP retry policy on fabricated responses with every status 100..599 (+0, 600, 999, -1) and on fabricated errors "
+            "with every constructible combination of the six inspected features; failsafehttp.DelayFunc on 8 statuses x 22 Retry-After texts (signs, spaces, floats, "
+            "underscores, hex, empty, overflow, HTTP-date); the gRPC retry policy on codes 0..17, a plain error and nil; MergeContexts observed through the gRPC client "
+            "interceptor on 6 x 7 context kinds x which source fires; (ii) per case one random end-to-end HTTP scenario against a loopback server (entry point RoundTripper / "
+            "Request.Do; body none / NoBody / bytes.Buffer / bytes.Reader / strings.Reader / seekable stream / seekable stream handed over at offset 10 / plain stream, sizes "
+            "0..70000 (1 MiB thorough), non-periodic payload; request context background / TODO / values / cancellable / deadline; executor context likewise; stack = optional "
+            "fallback, HTTP retry policy with 0-3 retries with or without ReturnLastFailure, and transparent inner timeout / hedge / breaker; server script of 1-5 attempts "
+            "from 13 statuses, Retry-After 0 / 1 / abc / -1, empty / small / 200 kB / streamed bodies, dropped connections), one timed scenario (timeout firing on slow "
+            "attempts; a hedge overlapping two attempts; caller cancelling mid-attempt) and one gRPC scenario (client or server interceptor, fake invoker / handler, script of "
+            "status codes, stacks with retry / timeout / hedge / breaker). Observed: requests as received by the server (method, URL, headers, body bytes, arrival times), "
+            "final status / error class, the returned body read to the end after the call returned, the context seen by the inner RoundTripper / invoker / handler (values, "
+            "deadline, metadata), argument / reply / error identity for gRPC. non-trivial = more than one attempt, or a classification that retries",
+    "assumptions": ["net/http and grpc-go are modelled, not verified (a response is readable while its request context is alive; the transport sends Body as given)",
+                    "Retry-After magnitudes stay below 2^63 ns", "Go timers never fire early"],
+    "modelled": ["each attempt's request is the caller's request with a new context and body (doRequest body fact); method / URL / header fidelity is observed by DIFF, not a theorem",
+                 "gRPC argument / reply / error pass-through is observed by DIFF (interceptor body facts), not a theorem",
+                 "hedged attempts with a seekable stream body share the reader: open known finding D9 (witness replayed on every run)"],
+    "manifest": {
+        "text": "Lean 4 theorems over the adapter models: a response is retried iff its status is 429 or >= 500 and not 501, an error iff it is not one of the documented terminal errors (proved about the predicate regenerated from failsafehttp/policy.go); DelayFunc yields Retry-After seconds exactly for 429/503 with an integer header and the scheduled retry delay is then at least that long; the retry loop over any server script makes attempt j+1 iff all earlier attempts were retryable and not aborted and the budget allows, never more than maxRetries+1, and returns the last attempt's result (ExceededError only when the budget is used up); every body kind, content, hand-over offset and number of sequential attempts replays exactly the bytes a plain request would have sent; buffered bodies are independent under any interleaving of concurrent attempts (seekable streams are not: witness, known finding D9); the merged context carries the caller's values and deadline and is done iff the caller's, the execution's or its own release fires; the gRPC policy retries exactly Unavailable / DeadlineExceeded / ResourceExhausted (table extracted from the source). Tie: GEN for the three predicates (Generated = Model proved each run), FACTS (builder chains, regexes, code table, bodies of doRequest / bodyReader / MergeContexts / interceptors), DIFF end to end against a loopback server and fake invoker / handler.",
+        "note": "Trusted: Lean kernel; translator + schema; fact extractor; harness and its loopback server. Partial: net/http, grpc-go and context propagation are modelled; request fidelity (method, URL, headers) and gRPC pass-through are validated by DIFF and body facts rather than proved; hedge + seekable body is an open known finding.",
+        "technique": "Lean 4 proof (truth tables of the regenerated predicates, induction over the retry loop and over attempts, invariants over interleavings of reads, context algebra) + regenerated-kernel tie + structural facts + differential correspondence end to end"},
+}
+
 CONC_ASSUME = ["the Go scheduler's interleavings are sampled (statistical), the model's are covered completely",
                "user functions cooperate with cancellation and do not panic", "Go timers never fire early"]
 
